@@ -75,6 +75,7 @@ type Fact struct {
 	Grid   [][]int64                   // two selector levels
 	Book   map[string]map[string]int64 // two selector levels
 	SV     Sub                         // a struct held by value (F.P holds the same type behind a pointer)
+	MSV    map[string]Sub              // structs held BY VALUE in a map: their fields can be read but not assigned
 	MK     map[int64]int64             // integer keys
 	A3     [3]int64                    // a Go array (not a slice)
 	// values behind a pointer / inside an interface (what decoded settings look like)
@@ -227,6 +228,12 @@ func (f *Fact) Clone() *Fact {
 		c.PI = &v
 	}
 	c.P = cloneSub(f.P, 0)
+	if f.MSV != nil {
+		c.MSV = map[string]Sub{}
+		for k, v := range f.MSV {
+			c.MSV[k] = v
+		}
+	}
 	if f.MK != nil {
 		c.MK = map[int64]int64{}
 		for k, v := range f.MK {
@@ -340,6 +347,18 @@ func (f *Fact) Dump() string {
 	}
 	if f.BI != 0 {
 		fmt.Fprintf(&b, " BI:%d", f.BI)
+	}
+	if f.MSV != nil {
+		ks := make([]string, 0, len(f.MSV))
+		for k := range f.MSV {
+			ks = append(ks, k)
+		}
+		sort.Strings(ks)
+		b.WriteString(" MSV:{")
+		for _, k := range ks {
+			fmt.Fprintf(&b, "%q:{V:%d S:%q},", k, f.MSV[k].V, f.MSV[k].S)
+		}
+		b.WriteString("}")
 	}
 	if f.SV != (Sub{}) {
 		fmt.Fprintf(&b, " SV:{V:%d S:%q}", f.SV.V, f.SV.S)
